@@ -575,28 +575,31 @@ func (c *runCtx) step(op opRec) (executed bool, err error) {
 		if coll {
 			return c.skip("dedup", "name-collision")
 		}
-		// with an unknown alphabet neither "N" nor "X" is designated: the flag is not passed then
-		nAsGap := op.b(0) && m.knownAlphabet()
-		key := func(s string, lowerToo bool) string {
-			if !nAsGap {
-				return s
-			}
-			w := "N"
-			if m.alphabet == align.AMINOACIDS {
-				w = "X"
-			}
-			s = strings.ReplaceAll(s, w, "-")
-			if lowerToo {
-				s = strings.ReplaceAll(s, asciiLower(w), "-")
-			}
-			return s
+		nAsGap := op.b(0)
+		// the wildcard that counts as a gap: N for nucleotides, X for proteins; with an unknown alphabet
+		// the documentation designates none: every choice (none, N, X, both) is accepted. Whether the lower
+		// case wildcard counts too is left open as well. The first reading is the preferred one.
+		wild := []string{"N"}
+		switch {
+		case !nAsGap:
+			wild = []string{""}
+		case m.alphabet == align.AMINOACIDS:
+			wild = []string{"X"}
+		case m.alphabet != align.NUCLEOTIDS:
+			wild = []string{"", "N", "X", "NX"}
 		}
-		groupsFor := func(lowerToo bool) ([]row, [][]string) {
+		groupsFor := func(w string, lowerToo bool) ([]row, [][]string) {
 			var out []row
 			var groups [][]string
 			pos := map[string]int{}
 			for _, r := range m.rows {
-				k := key(r.Seq, lowerToo)
+				k := r.Seq
+				for i := 0; i < len(w); i++ {
+					k = strings.ReplaceAll(k, w[i:i+1], "-")
+					if lowerToo {
+						k = strings.ReplaceAll(k, asciiLower(w[i:i+1]), "-")
+					}
+				}
 				if g, ok := pos[k]; ok {
 					groups[g] = append(groups[g], r.Name)
 				} else {
@@ -611,17 +614,27 @@ func (c *runCtx) step(op opRec) (executed bool, err error) {
 		if err = c.checkErr("Deduplicate", e, wantNoErr); err != nil {
 			return true, err
 		}
-		out, groups := groupsFor(false)
 		got := snapshot(c.sb)
-		if !sameRows(got, out) || !sameGroups(id, groups) {
-			// "N" for a lower case n is left open by the documentation
-			out2, groups2 := groupsFor(true)
-			if nAsGap && sameRows(got, out2) && sameGroups(id, groups2) {
-				c.o.Ambiguous++
-				out = out2
-			} else {
-				return true, fmt.Errorf("Deduplicate(nAsGap=%v)\n got : %s groups %v\n want: %s groups %v", nAsGap, showRows(got), id, showRows(out), groups)
+		out, groups := groupsFor(wild[0], false)
+		matched := false
+	readings:
+		for wi, w := range wild {
+			for _, lowerToo := range []bool{false, true} {
+				o2, g2 := groupsFor(w, lowerToo)
+				if sameRows(got, o2) && sameGroups(id, g2) {
+					if wi > 0 || lowerToo {
+						c.o.Ambiguous++
+					}
+					out, matched = o2, true
+					break readings
+				}
+				if w == "" {
+					break
+				}
 			}
+		}
+		if !matched {
+			return true, fmt.Errorf("Deduplicate(nAsGap=%v, alphabet %d)\n got : %s groups %v\n want: %s groups %v\n from: %s", nAsGap, m.alphabet, showRows(got), id, showRows(out), groups, showRows(m.rows))
 		}
 		m.rows = out
 		return true, nil
@@ -637,7 +650,7 @@ func (c *runCtx) step(op opRec) (executed bool, err error) {
 		cs := charSel{chars: "-", aa: m.alphabet == align.AMINOACIDS}
 		var removed int
 		if op.Op == "rmgapseqs" {
-			cs.ignoreN = op.b(0) && m.knownAlphabet()
+			cs.ignoreN = op.b(0)
 			removed = c.al().RemoveGapSeqs(cut, cs.ignoreN)
 		} else {
 			ch := op.s(0)
@@ -645,24 +658,28 @@ func (c *runCtx) step(op opRec) (executed bool, err error) {
 				ch = "A"
 			}
 			cs.chars = ch[:1]
-			cs.ignoreCase, cs.ignoreGaps, cs.ignoreN = op.b(0), op.b(1), op.b(2) && m.knownAlphabet()
+			cs.ignoreCase, cs.ignoreGaps, cs.ignoreN = op.b(0), op.b(1), op.b(2)
 			removed = c.al().RemoveCharacterSeqs(ch[0], cut, cs.ignoreCase, cs.ignoreGaps, cs.ignoreN)
 		}
 		got := snapshot(c.sb)
 		var out []row
-		for _, zz := range []bool{true, false} {
-			out = nil
-			for _, r := range m.rows {
-				cnt, tot := cs.counts(r.Seq)
-				if !reaches(cnt, tot, q, zz) {
-					out = append(out, r)
+	seqReadings:
+		for ai, aa := range m.wildcardReadings() { // N/n or X/x "depending on alphabet": both under an unknown one
+			cs.aa = aa
+			for _, zz := range []bool{true, false} {
+				out = nil
+				for _, r := range m.rows {
+					cnt, tot := cs.counts(r.Seq)
+					if !reaches(cnt, tot, q, zz) {
+						out = append(out, r)
+					}
 				}
-			}
-			if sameRows(got, out) {
-				if !zz {
-					c.o.Ambiguous++
+				if sameRows(got, out) {
+					if !zz || ai > 0 {
+						c.o.Ambiguous++
+					}
+					break seqReadings
 				}
-				break
 			}
 		}
 		if !sameRows(got, out) {
@@ -704,7 +721,7 @@ func (c *runCtx) step(op opRec) (executed bool, err error) {
 			if cs.chars == "" {
 				cs.chars = "A"
 			}
-			cs.ignoreCase, cs.ignoreGaps, cs.ignoreN, cs.reverse = op.b(1), op.b(2), op.b(3) && m.knownAlphabet(), op.b(4)
+			cs.ignoreCase, cs.ignoreGaps, cs.ignoreN, cs.reverse = op.b(1), op.b(2), op.b(3), op.b(4)
 			first, last, kept, rm = c.al().RemoveCharacterSites([]uint8(cs.chars), cut, ends, cs.ignoreCase, cs.ignoreGaps, cs.ignoreN, cs.reverse)
 		}
 		got := snapshot(c.sb)
@@ -718,7 +735,15 @@ func (c *runCtx) step(op opRec) (executed bool, err error) {
 			// range cutoff as it is and removes nothing (C12/FINDINGS.md): both accepted here
 			readings = append(readings, 2)
 		}
+		if aas := m.wildcardReadings(); len(aas) > 1 && cs.ignoreN {
+			readings = append(readings, 10, 11) // the same two readings with X/x as the wildcard
+		}
 		for _, reading := range readings {
+			cs.aa = m.alphabet == align.AMINOACIDS
+			if reading >= 10 {
+				cs.aa = true
+				reading -= 10
+			}
 			zz := reading == 0
 			hit := make([]bool, l)
 			for j := 0; j < l; j++ {
